@@ -225,6 +225,19 @@ func (b *Backend) Close() {
 	b.mu.Unlock()
 }
 
+// WaitIdle waits until no request is being answered (so that reading record fields written
+// by the responder is race-free); false on timeout.
+func (b *Backend) WaitIdle(max time.Duration) bool {
+	dl := time.Now().Add(max)
+	for b.InFlight.Load() != 0 {
+		if time.Now().After(dl) {
+			return false
+		}
+		time.Sleep(time.Millisecond)
+	}
+	return true
+}
+
 // Records returns a snapshot of all records so far.
 func (b *Backend) Records() []*Record {
 	b.mu.Lock()
@@ -299,12 +312,12 @@ func (b *Backend) serve(c net.Conn, id int64) {
 		rec.Seq = b.seq
 		b.records = append(b.records, rec)
 		b.mu.Unlock()
+		b.InFlight.Add(1)
 		h := b.handler.Load().(Handler)
 		resp := h(rec)
-		b.InFlight.Add(1)
 		keep := b.respond(c, br, rec, resp)
-		b.InFlight.Add(-1)
 		rec.TDone = Now()
+		b.InFlight.Add(-1)
 		if !keep {
 			return
 		}
